@@ -212,6 +212,21 @@ class Dup(object):
                 yield (data, c)
 
 
+class Numberer(object):
+    """Pre element that is a callable OBJECT with state: numbers the values it is given (a private copy
+    of the analysis numbers the values of its own cell from 0)."""
+
+    def __init__(self):
+        self.n = 0
+
+    def __call__(self, val):
+        data, ctx = split_value(val)
+        ctx = dict(ctx) if ctx is not None else {}
+        ctx["n"] = self.n
+        self.n += 1
+        return (data, ctx)
+
+
 class Tally(object):
     """A hand-written accumulator with mutable state: remembers every data it was filled with and
     yields len+1 results (so cells yield different numbers of results)."""
@@ -233,13 +248,14 @@ class Tally(object):
 
 
 ANALYSES = ("sum", "count", "inc_sum", "var_sum_tag", "mean_pass", "mean_raise", "mut_store",
-            "split_sum_count", "each", "sum_dup", "hist", "tally")
+            "split_sum_count", "each", "sum_dup", "hist", "tally", "numbered_store")
 
 #: coarse family that goes into a violation's cause
 FAMILY = {"sum": "bare-accumulator", "count": "bare-accumulator", "mean_pass": "bare-accumulator",
           "mean_raise": "bare-accumulator", "hist": "bare-accumulator", "each": "bare-accumulator",
           "tally": "bare-accumulator",
           "inc_sum": "pre-element", "mut_store": "pre-element-mutating-context",
+          "numbered_store": "pre-element-callable-object-with-state",
           "var_sum_tag": "pre-and-post-elements", "sum_dup": "post-element-several-results",
           "split_sum_count": "split-several-results"}
 
@@ -280,6 +296,8 @@ def build_analysis(name, dim):
         return seq(*(pre + [lena.structures.Histogram([-10, 0, 1, 100])]))
     if name == "tally":
         return Tally()
+    if name == "numbered_store":
+        return FCS(Numberer(), lena.flow.StoreFilled())
     raise ValueError(name)
 
 
@@ -386,6 +404,13 @@ def wrap(val):
     return (("m", data), ctx if ctx is not None else {})
 
 
+def read_context(val):
+    """The new content depends on the context of the cell (the sequence is applied to the cells
+    themselves, whatever happens to the context of the result afterwards)."""
+    data, ctx = split_value(val)
+    return (("c", data, sorted(ctx) if ctx else None), ctx if ctx is not None else {})
+
+
 def wrap_b(val):
     data, ctx = split_value(val)
     return (("b", data), ctx if ctx is not None else {})
@@ -429,7 +454,7 @@ class Copies(object):
                 yield (("c", data), c)
 
 
-MAP_SEQS = ("wrap", "var", "dup", "running", "copies", "markctx", "split2", "seq2")
+MAP_SEQS = ("wrap", "var", "dup", "running", "copies", "markctx", "split2", "seq2", "readctx")
 
 
 def build_map_seq(name):
@@ -445,6 +470,8 @@ def build_map_seq(name):
         return Copies()
     if name == "markctx":
         return mark_context
+    if name == "readctx":
+        return read_context
     if name == "split2":
         return lena.core.Split([wrap, wrap_b])
     if name == "seq2":
